@@ -15,8 +15,14 @@ pub enum Kind {
     ReplyPresence,
     /// reply id / payload / Ok-Err kind wrong
     ReplyArgs,
-    /// events or data inside Reply.result wrong
-    ReplyContent,
+    /// events inside Reply.result are not what the sub-message produced
+    ReplyEvents,
+    /// events inside Reply.result differ from the model but are exactly the slice of events the
+    /// sub-message contributed to the top-level response (the reply was given what was produced;
+    /// the composition of those events is what differs)
+    ReplyEventsComposition,
+    /// data inside Reply.result wrong
+    ReplyData,
     /// a non-reply entry point ran / did not run / in the wrong order
     EntryPresence,
     /// sender / funds / block / own balance wrong at entry
@@ -41,8 +47,10 @@ pub enum Kind {
     RespData,
     /// helper returned a wrong address
     HelperReturn,
-    /// execute_multi: number / order / content of the per-message responses
+    /// execute_multi: number / order of the per-message responses (identified by their data)
     MultiResponses,
+    /// execute_multi: events of the per-message responses
+    MultiEvents,
 }
 
 #[derive(Clone, Debug)]
@@ -171,12 +179,22 @@ pub fn compare(world: &World, start: &MState, prog: &Program, real: &RealOut, mo
         } else if r.reply.as_ref().map(|x| (x.id, &x.payload, x.ok)) != m.reply.as_ref().map(|x| (x.id, &x.payload, x.ok)) {
             Kind::ReplyArgs
         } else if r.reply != m.reply {
-            out.push(Divergence {
-                kind: Kind::ReplyContent,
-                detail: json!({"index": i, "rec": short_rec(r),
-                    "real_events": r.reply.as_ref().map(|x| &x.events), "model_events": m.reply.as_ref().map(|x| &x.events),
-                    "real_data": r.reply.as_ref().map(|x| x.data.as_ref().map(|d| crate::common::hex(d))), "model_data": m.reply.as_ref().map(|x| x.data.as_ref().map(|d| crate::common::hex(d)))}),
-            });
+            let (rr, mr) = (r.reply.as_ref().unwrap(), m.reply.as_ref().unwrap());
+            let detail = json!({"index": i, "rec": short_rec(r),
+                "real_events": &rr.events, "model_events": &mr.events,
+                "real_data": rr.data.as_ref().map(|d| crate::common::hex(d)), "model_data": mr.data.as_ref().map(|d| crate::common::hex(d))});
+            if rr.events != mr.events {
+                // did the reply get exactly what the sub-message contributed to the transaction's events?
+                let consistent = match &real.result {
+                    Ok((top, _)) => rr.events.is_empty() || top.windows(rr.events.len()).any(|w| w == rr.events.as_slice()),
+                    Err(_) => false,
+                };
+                let undecidable = real.result.is_err();
+                out.push(Divergence { kind: if consistent || undecidable { Kind::ReplyEventsComposition } else { Kind::ReplyEvents }, detail: detail.clone() });
+            }
+            if rr.data != mr.data {
+                out.push(Divergence { kind: Kind::ReplyData, detail });
+            }
             break;
         } else if r.code_tag != m.code_tag {
             Kind::CodeTag
@@ -240,10 +258,13 @@ pub fn compare(world: &World, start: &MState, prog: &Program, real: &RealOut, mo
             Entry::Multi { .. } => {
                 let got = real.multi.clone().unwrap_or_default();
                 let want: Vec<(Vec<NEvent>, Option<Vec<u8>>)> = model.multi.iter().map(|r| (r.events.clone(), r.data.clone())).collect();
-                if got != want {
-                    out.push(Divergence { kind: Kind::MultiResponses, detail: json!({"real_len": got.len(), "model_len": want.len(),
-                        "real": got.iter().map(|(e, d)| json!({"events": e.iter().map(|x| x.ty.clone()).collect::<Vec<_>>(), "data": d.as_ref().map(|d| crate::common::show(d))})).collect::<Vec<_>>(),
-                        "model": want.iter().map(|(e, d)| json!({"events": e.iter().map(|x| x.ty.clone()).collect::<Vec<_>>(), "data": d.as_ref().map(|d| crate::common::show(d))})).collect::<Vec<_>>()}) });
+                let gd: Vec<&Option<Vec<u8>>> = got.iter().map(|x| &x.1).collect();
+                let wd: Vec<&Option<Vec<u8>>> = want.iter().map(|x| &x.1).collect();
+                let show_all = |v: &Vec<(Vec<NEvent>, Option<Vec<u8>>)>| v.iter().map(|(e, d)| json!({"events": e.iter().map(|x| x.ty.clone()).collect::<Vec<_>>(), "data": d.as_ref().map(|d| crate::common::show(d))})).collect::<Vec<_>>();
+                if gd != wd {
+                    out.push(Divergence { kind: Kind::MultiResponses, detail: json!({"real_len": got.len(), "model_len": want.len(), "real": show_all(&got), "model": show_all(&want)}) });
+                } else if got != want {
+                    out.push(Divergence { kind: Kind::MultiEvents, detail: json!({"real": show_all(&got), "model": show_all(&want)}) });
                 }
             }
             Entry::ExecuteHelper { .. } => {
